@@ -1,21 +1,29 @@
 """Implementation side of C20: the real fit_into_array / load_cropped_and_aligned_image / loading
-models / load_image / load_table on files written by independent writers (numpy.save, astropy
-writeto, plain text join)."""
+models (called directly and through a whole Exposure run) / load_image / load_table / load_datacube on
+files written by independent writers (numpy.save, numpy.savetxt, astropy writeto, PIL, plain text join).
+
+Values: a case may carry `scale` (1 or 4): the arrays handed to the implementation are data / scale
+(quarter values are exact in binary) and the canonical output is output * scale as integers, so that the
+Coq side only sees integers while the implementation sees non-integral floats."""
 import itertools
 import os
+import time
 
 import numpy as np
 
 _counter = itertools.count()
 DELIM = {"tab": "\t", "space": " ", "comma": ",", "bar": "|", "semicolon": ";"}
+# modification times given to the files of a history: T0 + dt milliseconds (T0 = a whole second, two hours ago)
+T0_NS = (int(time.time()) - 7200) * 10**9
 
 
-def _canon(arr):
+def _canon(arr, scale=1):
     a = np.asarray(arr)
     if a.ndim != 2:
         return {"raise": f"ndim:{a.ndim}"}
     if a.dtype.kind not in "fiub":
         return {"raise": f"dtype:{a.dtype}"}
+    a = a.astype(float) * scale
     if not np.all(np.isfinite(a)) or not np.all(a == np.round(a)):
         return {"raise": "nonint"}
     return {"out": [[int(v) for v in row] for row in a], "shape": [int(a.shape[0]), int(a.shape[1])]}
@@ -35,43 +43,103 @@ def _unique(stem, ext):
 
 
 def _arr(p):
-    return np.array(p["data"], dtype=float).reshape(p["ay"], p["ax"])
+    a = np.array(p["data"], dtype=float).reshape(p["ay"], p["ax"]) / p.get("scale", 1)
+    dt = p.get("dtype")
+    if dt:
+        a = a.astype(dt)
+    return a
 
 
-def _detector(rows, cols):
+def _detector(rows, cols, time_step=1.0):
     from harness.pyx import make_detector
 
     det = make_detector("ccd", rows=rows, cols=cols)
     det.set_readout(times=[1.0], start_time=0.0)
-    det.time_step = 1.0
+    det.time_step = float(time_step)
     return det
 
 
-def _call_loader(via, fn, shape, py, px, align, allow, mult=1):
-    """One load through the requested entry point; returns the placed array."""
+def _exposure(shape, models, times):
+    """One whole Exposure run (pyxel.run_mode) of a pipeline holding the loading model(s)."""
+    from harness.pyx import make_detector, make_pipeline, make_readout, run_exposure
+
+    det = make_detector("ccd", rows=shape[0], cols=shape[1])
+    return run_exposure(det, make_pipeline(models), make_readout(times=times))["bucket"]
+
+
+def _call_loader(via, fn, shape, py, px, align, allow, tm=(1, 1, 1), as_path=False):
+    """One load through the requested entry point; returns the placed array.
+    tm = (time_step, time_scale, multiplier): the loading models scale by time_step / time_scale (* multiplier)."""
     from pyxel.util import load_cropped_and_aligned_image
 
+    if as_path:
+        from pathlib import Path
+
+        fn = Path(fn)
+    step, tscale, mult = tm
     if via == "lcai":
         return load_cropped_and_aligned_image(shape=tuple(shape), filename=fn, position_x=px, position_y=py,
                                               align=align, allow_smaller_array=allow)
-    det = _detector(shape[0], shape[1])
+    if via == "lcai_pos":      # positional call, defaults left out (another lru_cache key for the same request)
+        if align is None and allow:
+            return load_cropped_and_aligned_image(tuple(shape), fn, px, py)
+        return load_cropped_and_aligned_image(tuple(shape), fn, px, py, align, allow)
     if via == "photon":
         from pyxel.models.photon_collection import load_image as model_load_image
 
-        model_load_image(det, image_file=fn, position=(py, px), align=align, multiplier=float(mult))
+        det = _detector(shape[0], shape[1], step)
+        model_load_image(det, image_file=fn, position=(py, px), align=align, multiplier=float(mult),
+                         time_scale=float(tscale))
         return det.photon.array
     if via == "charge":
         from pyxel.models.charge_generation import load_charge
 
-        load_charge(det, filename=fn, position=(py, px), align=align, time_scale=1.0 / mult)
+        det = _detector(shape[0], shape[1], step)
+        load_charge(det, filename=fn, position=(py, px), align=align, time_scale=float(tscale))
         return det.charge.array
+    if via in ("pipe_photon", "pipe_charge"):
+        # a whole run: readout time = step, so that time_step = step in the single readout
+        if via == "pipe_photon":
+            models = {"photon_collection": [dict(
+                func="pyxel.models.photon_collection.load_image", name="load_image",
+                arguments=dict(image_file=str(fn), position=[py, px], align=align, multiplier=float(mult),
+                               time_scale=float(tscale)))]}
+            return _exposure(shape, models, [float(step)])["photon"].isel(time=0).to_numpy()
+        models = {"charge_generation": [dict(
+            func="pyxel.models.charge_generation.load_charge", name="load_charge",
+            arguments=dict(filename=str(fn), position=[py, px], align=align, time_scale=float(tscale)))]}
+        return _exposure(shape, models, [float(step)])["charge"].isel(time=0).to_numpy()
     raise ValueError(via)
+
+
+def _write_image(fn, a, dt_ms=None):
+    """Write array `a` to fn in the format its extension names; optionally force the modification time."""
+    ext = os.path.splitext(fn)[1].lower()
+    if ext == ".npy":
+        with open(fn, "wb") as fh:          # (np.save(name) would append ".npy" to a name ending in ".NPY")
+            np.save(fh, a)
+    elif ext == ".fits":
+        from astropy.io import fits
+
+        fits.writeto(fn, a, overwrite=True)
+    elif ext in (".txt", ".data", ".csv"):
+        np.savetxt(fn, a, delimiter={".txt": ",", ".data": " ", ".csv": ";"}[ext])
+    elif ext in (".png", ".bmp", ".tiff", ".tif"):
+        from PIL import Image
+
+        Image.fromarray(np.asarray(a).astype(np.uint8), mode="L").save(fn)      # 8-bit grey levels, lossless
+    else:
+        raise ValueError(ext)
+    if dt_ms is not None:
+        t = T0_NS + int(dt_ms) * 10**6
+        os.utime(fn, ns=(t, t))
 
 
 def handle_fit(p):
     a = _arr(p)
     py, px = p["pos"]
     via = p.get("path", "fit")
+    sc = p.get("scale", 1)
     try:
         if via == "fit":
             from pyxel.util import fit_into_array
@@ -79,15 +147,83 @@ def handle_fit(p):
             out = fit_into_array(array=a, output_shape=(p["oy"], p["ox"]), relative_position=(py, px),
                                  align=p["align"], allow_smaller_array=p["allow"])
         else:
-            fn = _unique("img", ".npy")
-            np.save(fn, a)
+            fn = _unique("img", p.get("ext", ".npy"))
+            _write_image(fn, a)
             try:
-                out = _call_loader(via, fn, (p["oy"], p["ox"]), py, px, p["align"], p["allow"], p.get("mult", 1))
+                out = _call_loader(via, fn, (p["oy"], p["ox"]), py, px, p["align"], p["allow"],
+                                   tuple(p.get("tm", (1, 1, p.get("mult", 1)))), p.get("as_path", False))
             finally:
                 os.unlink(fn)
-        return _canon(out)
+        return _canon(out, sc)
     except Exception as ex:  # noqa: BLE001
         return _exc(ex)
+
+
+def handle_steps(p):
+    """One Exposure run with several readout times: the loading model runs once per readout with that readout's
+    time_step; the photon / charge bucket of every readout is returned (charge accumulates over the steps)."""
+    a = _arr(p)
+    py, px = p["pos"]
+    fn = _unique("img", p.get("ext", ".npy"))
+    try:
+        _write_image(fn, a)
+        tscale = float(p["tscale"])
+        if p["path"] == "pipe_photon":
+            models = {"photon_collection": [dict(
+                func="pyxel.models.photon_collection.load_image", name="load_image",
+                arguments=dict(image_file=fn, position=[py, px], align=p["align"], multiplier=float(p["mult"]),
+                               time_scale=tscale))]}
+            var = "photon"
+        else:
+            models = {"charge_generation": [dict(
+                func="pyxel.models.charge_generation.load_charge", name="load_charge",
+                arguments=dict(filename=fn, position=[py, px], align=p["align"], time_scale=tscale))]}
+            var = "charge"
+        bucket = _exposure((p["oy"], p["ox"]), models, [float(t) for t in p["times"]])
+        arr = bucket[var].to_numpy()
+        return {"steps": [_canon(arr[k], p.get("scale", 1)) for k in range(arr.shape[0])]}
+    except Exception as ex:  # noqa: BLE001
+        return {"steps": [_exc(ex)] * len(p["times"])}
+    finally:
+        if os.path.exists(fn):
+            os.unlink(fn)
+
+
+def _raw_load(via, fn, as_path=False):
+    if as_path:
+        from pathlib import Path
+
+        fn = Path(fn)
+    if via == "image":
+        from pyxel.inputs import load_image
+
+        return load_image(fn)
+    if via == "table":
+        from pyxel.inputs import load_table
+
+        return load_table(fn).to_numpy()
+    if via == "psf":
+        # the model photon_collection.load_psf reads its kernel anew at every run: a 1x1 scene holding 1 photon
+        # convolved ('same' mode) with a kernel of odd shape returns the kernel's central value; instead of
+        # decoding a convolution the kernel is observed where the model reads it
+        from pyxel.models.photon_collection import point_spread_function as psf_mod
+
+        seen = {}
+        orig = psf_mod.apply_psf
+
+        def spy(array, psf, normalize_kernel=True):
+            seen["psf"] = np.array(psf)
+            return orig(array=array, psf=psf, normalize_kernel=normalize_kernel)
+
+        psf_mod.apply_psf = spy
+        try:
+            det = _detector(3, 3)
+            det.photon.array = np.ones((3, 3))
+            psf_mod.load_psf(det, filename=fn, normalize_kernel=False)
+        finally:
+            psf_mod.apply_psf = orig
+        return seen["psf"]
+    raise ValueError(via)
 
 
 def handle_memo(p):
@@ -99,17 +235,23 @@ def handle_memo(p):
     tag = f"{os.getpid()}_{next(_counter)}"
     real = {}
     res = []
+    sc = p.get("scale", 1)
+    name_of = lambda n: real.setdefault(n, os.path.abspath(f"c20m_{tag}_{n}"))
     try:
         for ev in p["events"]:
             if "w" in ev:
-                fn = real.setdefault(ev["w"], os.path.abspath(f"c20m_{tag}_{ev['w']}"))
-                np.save(fn, _arr(ev))
+                _write_image(name_of(ev["w"]), _arr(dict(ev, scale=sc)), ev.get("dt"))
+            elif "r" in ev:
+                try:
+                    res.append(_canon(_raw_load(ev["via"], name_of(ev["r"]), ev.get("as_path", False)), sc))
+                except Exception as ex:  # noqa: BLE001
+                    res.append(_exc(ex))
             else:
                 q = ev["l"]
-                fn = real.get(q["file"], os.path.abspath(f"c20m_{tag}_{q['file']}"))
                 try:
-                    out = _call_loader(p.get("via", "lcai"), fn, q["shape"], q["py"], q["px"], q["align"], q["allow"])
-                    res.append(_canon(out))
+                    out = _call_loader(p.get("via", "lcai"), name_of(q["file"]), q["shape"], q["py"], q["px"],
+                                       q["align"], q["allow"], as_path=q.get("as_path", False))
+                    res.append(_canon(out, sc))
                 except Exception as ex:  # noqa: BLE001
                     res.append(_exc(ex))
     finally:
@@ -119,39 +261,113 @@ def handle_memo(p):
     return {"results": res}
 
 
-def _write(fmt, delim, table, fn):
-    a = np.array(table, dtype=float)
+def _write(fmt, delim, table, fn, p):
+    sc = p.get("scale", 1)
+    a = np.array(table, dtype=float) / sc
+    if p.get("dtype"):
+        a = a.astype(p["dtype"])
     if fmt == "npy":
-        np.save(fn, a)
+        with open(fn, "wb") as fh:
+            np.save(fh, a)
     elif fmt == "fits":
         from astropy.io import fits
 
-        fits.writeto(fn, a, overwrite=True)
+        hdus = p.get("hdus", "primary")
+        if hdus == "primary":
+            fits.writeto(fn, a, overwrite=True)
+        elif hdus == "ext1":          # empty primary HDU, the image in the first extension
+            fits.HDUList([fits.PrimaryHDU(), fits.ImageHDU(a, name="RAW")]).writeto(fn, overwrite=True)
+        elif hdus == "two":           # image in the primary HDU, another image behind it
+            fits.HDUList([fits.PrimaryHDU(a), fits.ImageHDU(a[::-1, ::-1] + 1, name="OTHER")]).writeto(fn, overwrite=True)
+        else:
+            raise ValueError(hdus)
     elif fmt == "fitstable":
         from astropy.table import Table
 
-        Table(rows=[[float(v) for v in row] for row in table]).write(fn, format="fits", overwrite=True)
+        Table(rows=[[float(v) / sc for v in row] for row in table]).write(fn, format="fits", overwrite=True)
+    elif fmt in ("png", "bmp", "tiff", "tif"):
+        from PIL import Image
+
+        Image.fromarray(a.astype(np.uint8), mode="L").save(fn)
+    elif fmt in ("jpg", "jpeg"):          # lossy: only uniform grey pictures come back exactly
+        from PIL import Image
+
+        Image.fromarray(a.astype(np.uint8), mode="L").save(fn, quality=100)
+    elif fmt == "xlsx":
+        import pandas as pd
+
+        pd.DataFrame(a).to_excel(fn, header=bool(p.get("header")), index=False)
     else:
         sep = DELIM[delim]
+        style = p.get("style", "int")
         with open(fn, "w") as fh:
-            for row in table:
-                fh.write(sep.join(str(int(v)) for v in row) + "\n")
+            if p.get("header"):
+                fh.write(sep.join(f"c{k}" for k in range(len(table[0]))) + "\n")
+            for row in a.tolist():
+                if style == "int":
+                    cells = [str(int(v)) for v in row]
+                elif style == "repr":
+                    cells = [repr(float(v)) for v in row]
+                elif style == "sci":      # numpy.savetxt's default format
+                    cells = ["%.18e" % v for v in row]
+                else:
+                    raise ValueError(style)
+                fh.write(sep.join(cells) + ("\n" if not p.get("crlf") else "\r\n"))
 
 
 def handle_roundtrip(p):
-    ext = {"npy": ".npy", "fits": ".fits", "fitstable": ".fits", "txt": ".txt", "data": ".data", "csv": ".csv"}[p["fmt"]]
+    ext = {"npy": ".npy", "fits": ".fits", "fitstable": ".fits", "txt": ".txt", "data": ".data", "csv": ".csv",
+           "png": ".png", "bmp": ".bmp", "tiff": ".tiff", "tif": ".tif", "xlsx": ".xlsx", "jpg": ".jpg", "jpeg": ".jpeg"}[p["fmt"]]
+    if p.get("upper"):
+        ext = ext.upper()
     fn = _unique("rt", ext)
     try:
-        _write(p["fmt"], p.get("delim"), p["table"], fn)
+        _write(p["fmt"], p.get("delim"), p["table"], fn, p)
+        arg = fn
+        if p.get("as_path"):
+            from pathlib import Path
+
+            arg = Path(fn)
         if p["loader"] == "image":
             from pyxel.inputs import load_image
 
-            out = load_image(fn)
-        else:
+            out = load_image(arg)
+        elif p["loader"] == "table":
             from pyxel.inputs import load_table
 
-            out = load_table(fn).to_numpy()
-        return _canon(out)
+            out = load_table(arg, header=bool(p.get("header"))).to_numpy()
+        else:
+            raise ValueError(p["loader"])
+        return _canon(out, p.get("scale", 1))
+    except Exception as ex:  # noqa: BLE001
+        return _exc(ex)
+    finally:
+        if os.path.exists(fn):
+            os.unlink(fn)
+
+
+def handle_cube(p):
+    """3-D .npy through load_datacube (accepted, returned whole) and through load_image (returned as stored)."""
+    fn = _unique("cube", ".npy")
+    try:
+        a = np.array(p["cube"], dtype=float)
+        with open(fn, "wb") as fh:
+            np.save(fh, a)
+        if p["loader"] == "datacube":
+            from pyxel.inputs import load_datacube
+
+            out = np.asarray(load_datacube(fn))
+        else:
+            from pyxel.inputs import load_image
+
+            out = np.asarray(load_image(fn))
+        if out.ndim != 3:
+            return {"raise": f"ndim:{out.ndim}"}
+        # planes stacked row-wise: the Coq side compares a (planes*rows) x cols table + the shape
+        flat = out.reshape(out.shape[0] * out.shape[1], out.shape[2])
+        r = _canon(flat)
+        r["shape3"] = [int(s) for s in out.shape]
+        return r
     except Exception as ex:  # noqa: BLE001
         return _exc(ex)
     finally:
@@ -164,9 +380,13 @@ def handle_text(p):
     try:
         with open(fn, "w") as fh:
             fh.write(p["text"])
-        from pyxel.inputs import load_image
+        if p.get("loader", "image") == "image":
+            from pyxel.inputs import load_image
 
-        return _canon(load_image(fn))
+            return _canon(load_image(fn), p.get("scale", 1))
+        from pyxel.inputs import load_table
+
+        return _canon(load_table(fn).to_numpy(), p.get("scale", 1))
     except Exception as ex:  # noqa: BLE001
         return _exc(ex)
     finally:
@@ -181,10 +401,14 @@ def handle(p):
     k = p["kind"]
     if k == "fit":
         return handle_fit(p)
+    if k == "steps":
+        return handle_steps(p)
     if k == "memo":
         return handle_memo(p)
     if k == "roundtrip":
         return handle_roundtrip(p)
+    if k == "cube":
+        return handle_cube(p)
     if k == "text":
         return handle_text(p)
     raise ValueError(k)
